@@ -124,6 +124,12 @@ def vectors(L, mode, real):
         k = np.arange(n)
         v = (np.sin(1.0 + (1.7 + w) * k) + 0.3) / (1.0 + 0.2 * k) + 1j * np.cos(0.3 + (2.3 - 0.4 * w) * k) / (1.0 + 0.1 * k)
         yield ("dense", (w,)), fin(v)
+    # decaying spectra (what shape functions look like): |c_lm| ~ 10^(-l/2) and 10^(-l)
+    ls = np.array([l for (l, m) in lms], dtype=float)
+    for w, rate in enumerate((0.5, 1.0)):
+        k = np.arange(n)
+        v = ((np.sin(1.0 + 1.7 * k) + 1.3) + 1j * np.cos(0.3 + 2.3 * k)) * 10.0 ** (-rate * ls)
+        yield ("decaying", (w,)), fin(v)
 
 
 def invariants_of(L, c, sht):
@@ -165,7 +171,10 @@ def job_worker(part, job):
             cr = np.ascontiguousarray(ylm.apply_blocks(L, bl, c))
             N1, P1, S1 = invariants_of(L, cr, sht)
             case = {"kind": "vec", "L": L, "mode": mode, "real": real, "tag": tag, "idx": list(idxs), "word": list(w)}
-            dN = np.abs(N1 - N0).max() / math.sqrt(scale2)
+            # every degree is judged relative to its own magnitude (floating-point accuracy per degree), with an absolute
+            # floor at 1e-13 of the total norm
+            dN = float(np.max(np.abs(N1 - N0) / (np.abs(N0) + 1e-4 * math.sqrt(scale2) * 1e-9 + 1e-300)))
+            dN = min(dN, float(np.abs(N1 - N0).max() / math.sqrt(scale2)) * 1e4) if not np.isfinite(dN) else dN
             part.dev("N_rel", dN)
             if dN > 1e-9:
                 l_bad = int(np.argmax(np.abs(N1 - N0)))
@@ -201,6 +210,22 @@ def locality_worker(part, L):
     lms = ylm.lm_complex(L)
     k = np.arange(n)
     base = (np.sin(1.0 + 1.7 * k) + 0.3) + 1j * np.cos(0.3 + 2.3 * k)
+    if L >= 6:
+        # second pass on a decaying spectrum: a change in a LOW degree must not move a HIGH degree's invariant at all
+        ls = np.array([l for (l, m) in lms], dtype=float)
+        dec = base * 10.0 ** (-0.5 * ls)
+        Nd0 = make_N_invariants(dec)
+        for j in (0, 1, 2, 3):
+            part.ev()
+            c = dec.copy()
+            c[j] += 0.37 - 0.21j
+            Nd1 = make_N_invariants(c)
+            lp = lms[j][0]
+            moved = [int(l) for l in range(L + 1) if l != lp and Nd1[l] != Nd0[l] and abs(Nd1[l] - Nd0[l]) > 1e-12 * abs(Nd0[l])]
+            if moved:
+                part.fail("N-not-local:decaying", "changing coefficient (l=%d) of a decaying spectrum moves the N invariant of degree %s (L=%d): N_l does not depend on its own degree only"
+                          % (lp, moved, L), {"kind": "local", "L": L})
+                break
     N0 = make_N_invariants(base)
     for j, (lp, mp) in enumerate(lms):
         part.ev()
